@@ -7,6 +7,7 @@ import (
 	"strings"
 	"time"
 
+	"github.com/filecoin-project/go-bitfield"
 	"github.com/filecoin-project/go-f3/gpbft"
 )
 
@@ -353,6 +354,142 @@ func splitBrainScenario(r *rng, viol func(clause, sig, detail string)) *simResul
 		desc: map[string]any{"scenario": "split-brain at the quorum boundary", "nodes": 3, "powers": pw, "byzantine": byz, "votes": len(g.votes), "byz_votes": bv, "max_round": g.maxRound(), "all_decided": decided}}
 }
 
+// foreign-value sway attempt: the honest participants share one input; QUALITY votes reach only some of them, so their
+// round-0 PREPAREs split (input vs base) and everybody commits bottom at the timeout; COMMITs between honest participants
+// are slow.  The Byzantine member (just under one third) aggregates the COMMITs for bottom it sees on the wire into a valid
+// justification and immediately offers CONVERGE (and PREPARE) for a chain NOBODY proposed, in every round; whenever an
+// honest participant votes for that chain it follows up with its own justified vote.
+func foreignSwayScenario(r *rng, viol func(clause, sig, detail string)) *simResult {
+	n := 4 + r.intn(2)
+	pw := make([]int64, n)
+	byz := make([]bool, n)
+	for i := range pw {
+		pw[i] = 100
+	}
+	b := r.intn(n)
+	byz[b] = true
+	pw[b] = int64(100*(n-1)/2 - 1 - r.intn(20)) // < 1/3 of the total
+	base := mkTipset(0, "base")
+	input := &gpbft.ECChain{TipSets: []*gpbft.TipSet{base, mkTipset(1, "x1")}}
+	foreign := &gpbft.ECChain{TipSets: []*gpbft.TipSet{base, mkTipset(1, "z1")}}
+	inputs := make([]*gpbft.ECChain, n)
+	for i := range inputs {
+		inputs[i] = input
+	}
+	inputs[b] = foreign
+	cfg := gnetCfg{n: n, powers: pw, byz: byz, inputs: inputs, delta: 2 * time.Second}
+	g := newGnet(r, cfg, viol)
+	deaf := map[int]bool{} // honest participants that do not hear the others' QUALITY in time
+	for i := range g.nodes {
+		if i != b && len(deaf) < 1+r.intn(2) {
+			deaf[i] = true
+		}
+	}
+	g.slow = func(from, to int, msg *gpbft.GMessage) bool {
+		return msg.Vote.Phase == gpbft.COMMIT_PHASE || (msg.Vote.Phase == gpbft.QUALITY_PHASE && deaf[to])
+	}
+	bz := g.nodes[b]
+	bv := 0
+	bottom := &gpbft.ECChain{}
+	done := map[string]bool{}
+	// aggregate the votes for (round, phase, value) seen on the wire (plus the Byzantine member's own) into a justification
+	aggregate := func(round uint64, phase gpbft.Phase, value *gpbft.ECChain) *gpbft.Justification {
+		payload := gpbft.Payload{Instance: g.instance, Round: round, Phase: phase, SupplementalData: g.supp, Value: value}
+		sigs := map[int][]byte{}
+		for _, v := range g.votes {
+			if v.msg.Vote.Round == round && v.msg.Vote.Phase == phase && v.msg.Vote.Value.Eq(value) {
+				sigs[g.ptIndex(v.msg.Sender)] = v.msg.Signature
+			}
+		}
+		if own, err := g.backend.Sign(g.ctx, g.pt.Entries[g.ptIndex(bz.id)].PubKey, payload.MarshalForSigning(verifNet)); err == nil {
+			sigs[g.ptIndex(bz.id)] = own
+		}
+		var mask []int
+		var pwr int64
+		for i := range g.pt.Entries {
+			if _, ok := sigs[i]; ok {
+				mask = append(mask, i)
+				pwr += g.pt.ScaledPower[i]
+			}
+		}
+		if !gpbft.IsStrongQuorum(pwr, g.pt.ScaledTotal) {
+			return nil
+		}
+		bf := bitfield.New()
+		var ss [][]byte
+		for _, i := range mask {
+			bf.Set(uint64(i))
+			ss = append(ss, sigs[i])
+		}
+		agg, err := g.backend.Aggregate(g.pt.Entries.PublicKeys())
+		if err != nil {
+			return nil
+		}
+		sig, err := agg.Aggregate(mask, ss)
+		if err != nil {
+			return nil
+		}
+		return &gpbft.Justification{Vote: payload, Signers: bf, Signature: sig}
+	}
+	emit := func(round uint64, ph gpbft.Phase, v *gpbft.ECChain, j *gpbft.Justification) {
+		k := fmt.Sprint(round, ph, v.IsZero())
+		if done[k] {
+			return
+		}
+		mb := &gpbft.MessageBuilder{NetworkName: verifNet, PowerTable: g.pt, Justification: j,
+			Payload: gpbft.Payload{Instance: g.instance, Round: round, Phase: ph, SupplementalData: g.supp, Value: v}}
+		if ph == gpbft.CONVERGE_PHASE {
+			mb.BeaconForTicket = []byte("beacon")
+		}
+		m2, err := mb.Build(g.ctx, g.backend, bz.id)
+		if err != nil {
+			return
+		}
+		done[k] = true
+		bv++
+		g.votes = append(g.votes, &sentVote{sender: bz.idx, msg: m2, honest: false, seq: len(g.votes)})
+		for _, to := range g.nodes {
+			if to.honest {
+				g.pool = append(g.pool, &pendingMsg{to: to.idx, msg: m2, from: bz.idx, ready: g.now})
+			}
+		}
+	}
+	g.onSend = func(from int, msg *gpbft.GMessage) {
+		round := msg.Vote.Round
+		switch {
+		case msg.Vote.Phase == gpbft.COMMIT_PHASE && msg.Vote.Value.IsZero():
+			if j := aggregate(round, gpbft.COMMIT_PHASE, bottom); j != nil {
+				emit(round+1, gpbft.CONVERGE_PHASE, foreign, j)
+				emit(round+1, gpbft.PREPARE_PHASE, foreign, j)
+			}
+		case msg.Vote.Phase == gpbft.PREPARE_PHASE && msg.Vote.Value.Eq(foreign):
+			if j := aggregate(round, gpbft.PREPARE_PHASE, foreign); j != nil {
+				emit(round, gpbft.COMMIT_PHASE, foreign, j)
+			}
+		case msg.Vote.Phase == gpbft.COMMIT_PHASE && msg.Vote.Value.Eq(foreign):
+			if j := aggregate(round, gpbft.COMMIT_PHASE, foreign); j != nil {
+				emit(0, gpbft.DECIDE_PHASE, foreign, j)
+			}
+		}
+	}
+	for i := range g.nodes {
+		g.start(i)
+	}
+	g.run(2500+r.intn(1500), nil)
+	g.stabilised = true
+	roundAtStab := g.maxRound()
+	decided := g.run(60000, nil)
+	g.checkDecisions()
+	dl := false
+	for _, l := range g.log {
+		if strings.HasPrefix(l, "deadlock") {
+			dl = true
+		}
+	}
+	return &simResult{g: g, decided: decided, byzVotes: bv, roundAtStab: roundAtStab, deadlock: dl && !decided, budget: !decided && !dl,
+		desc: map[string]any{"scenario": "foreign-value sway via CONVERGE justified by COMMIT-bottom", "nodes": n, "powers": pw, "byzantine": byz, "votes": len(g.votes), "byz_votes": bv, "max_round": g.maxRound(), "all_decided": decided}}
+}
+
 func shuffled(r *rng, n int) []int {
 	p := make([]int, n)
 	for i := range p {
@@ -383,6 +520,8 @@ func runSpecSim(o *out, r *rng, thorough bool, pid string) {
 		var res *simResult
 		if i%6 == 5 {
 			res = splitBrainScenario(r, viol)
+		} else if i%6 == 2 {
+			res = foreignSwayScenario(r, viol)
 		} else {
 			res = simScenario(r, viol)
 		}
